@@ -287,6 +287,75 @@ func genBigPurge(r *hxlib.Run, emit func(hxlib.Case)) {
 	}
 }
 
+// genBoundary: records whose expiry time lies one or two seconds ahead (absolute, or relative through a TTL of one
+// second), deleted stamps at the same seconds, on all four backends and both delete modes in ONE case, so that
+// one wait serves them all: after `waitsec n` the wall clock shows exactly the second some expiry times name.
+// Within that second every database gets a block get*/query/maintenance-or-purge/get*/query bracketed by two
+// clock readings (see dbx.MonitorBoundary). Runs on the implementation only: the model's clock is logical.
+func genBoundary(r *hxlib.Run, emit func(hxlib.Case)) {
+	rng := r.Rng
+	type cf struct{ b, sh string }
+	var cfgs []cf
+	for _, b := range []string{"h", "b", "f", "g"} {
+		for _, sh := range []string{"0", "1"} {
+			cfgs = append(cfgs, cf{b, sh})
+		}
+	}
+	keys := []string{"bd/k0", "bd/k1", "bd/k2", "bd/k3", "bd/k4", "bd/k5"}
+	for c := 0; c < r.Budget(2, 15); c++ {
+		var lines []string
+		for i, x := range cfgs {
+			if i == 0 {
+				lines = append(lines, "cfg "+x.b+" "+x.sh, "if p 1 1 n 0 0 0 0")
+			} else {
+				lines = append(lines, "addcfg "+x.b+" "+x.sh)
+			}
+			for j, k := range keys {
+				exp := pick(r, []string{"@+1", "@+1", "@+2", "@+2", "@+0", "0"})
+				del := "0"
+				switch {
+				case j == 0:
+					exp = "@+1"
+				case j == 1:
+					exp = "@+2"
+				case j == 2 && rng.Intn(2) == 0:
+					exp, del = "0", "-1" // TTL of one second: Expires = time of the put + 1
+				case j == 5 && rng.Intn(2) == 0:
+					del = pick(r, []string{"@+1", "@+0", "@-5000"}) // stored deleted (shadow) / not stored (immediate)
+				}
+				lines = append(lines, fmt.Sprintf("put p %s J 0,0,%s,%s,0,0 S=s:v%d", k, exp, del, j))
+				r.Count("boundary:expires=" + exp + ",deleted=" + del)
+			}
+		}
+		for round := 1; round <= 2; round++ {
+			lines = append(lines, fmt.Sprintf("waitsec %d", round))
+			for _, x := range cfgs {
+				lines = append(lines, "usecfg "+x.b+" "+x.sh, "clock")
+				for _, k := range keys {
+					lines = append(lines, "get p "+k)
+				}
+				lines = append(lines, "query p bd/ -")
+				op := "maintain " + pick(r, []string{"@+0", "@+1", "@+2", "@+1", "@+3"})
+				switch rng.Intn(6) {
+				case 0:
+					op = "gmaintain"
+				case 1, 2:
+					if x.b == "b" || rng.Intn(6) == 0 {
+						op = "purge p bd/ -"
+					}
+				}
+				lines = append(lines, op)
+				r.Count("boundary:op:" + strings.Fields(op)[0])
+				for _, k := range keys {
+					lines = append(lines, "get p "+k)
+				}
+				lines = append(lines, "query p bd/ -", "clock")
+			}
+		}
+		emit(hxlib.Case{Lines: lines, NonTrivial: true, Kind: "expiry-boundary", NoModel: true})
+	}
+}
+
 func generate(r *hxlib.Run, emit0 func(hxlib.Case)) {
 	emit := func(c hxlib.Case) {
 		if !dbx.Hung() {
@@ -297,6 +366,7 @@ func generate(r *hxlib.Run, emit0 func(hxlib.Case)) {
 	regression(emit)
 	genIterator(r, emit)
 	genBigPurge(r, emit)
+	genBoundary(r, emit)
 	n := r.Budget(250, 3000)
 	for i := 0; i < n; i++ {
 		for _, backend := range []string{"h", "b", "f", "g"} {
@@ -318,6 +388,20 @@ func generate(r *hxlib.Run, emit0 func(hxlib.Case)) {
 
 // monitor: the property statement read literally (reference map in dbx.Oracle) on the implementation outputs.
 func monitor(c hxlib.Case, outs []string) (vs []hxlib.Violation) {
+	if dbx.IsBoundaryCase(c.Lines) {
+		skipLock.Lock()
+		bv := dbx.MonitorBoundary(c.Lines, outs, &boundary)
+		skipLock.Unlock()
+		seen := map[string]bool{}
+		for _, v := range bv {
+			if seen[v.Sig] {
+				continue
+			}
+			seen[v.Sig] = true
+			vs = append(vs, hxlib.Violation{Sig: v.Sig, What: fmt.Sprintf("op %d %q: %s", v.Idx, c.Lines[v.Idx], v.What), Lines: c.Lines, Output: outs})
+		}
+		return vs
+	}
 	o := dbx.NewOracle()
 	for i, l := range c.Lines {
 		o.Step(i, l, outs[i])
@@ -341,6 +425,7 @@ func monitor(c hxlib.Case, outs []string) (vs []hxlib.Violation) {
 var (
 	skips    = map[string]int{}
 	skipLock sync.Mutex
+	boundary dbx.BoundaryStats
 )
 
 func main() {
@@ -352,7 +437,8 @@ func main() {
 		NewExec:  func(*hxlib.Run) hxlib.Exec { return dbx.New(nil) },
 		Monitor:  monitor,
 		Extra: func(*hxlib.Run) map[string]any {
-			return map[string]any{"monitor_not_judged": skips}
+			return map[string]any{"monitor_not_judged": skips, "boundary_blocks": map[string]int{"judged": boundary.Judged,
+				"with_maintenance_or_purge": boundary.AtBoundary, "not_judged_second_changed_inside_block": boundary.CrossedSecond, "waitsec_late": boundary.Late}}
 		},
 		DisSig: func(line, impl, model string) string {
 			return "corr:" + strings.Fields(line)[0]
